@@ -9,11 +9,13 @@ D="$ROOT/seeded/$ID"; mkdir -p "$D"
 cp "$SRC/patch.diff" "$SRC/demo.rs" "$D/"; [ -f "$SRC/notes.md" ] && cp "$SRC/notes.md" "$D/"
 conf="$("$ROOT/selftest/confirm_seeded.sh" "$D" 2>&1 | tail -1)"
 echo "$conf"
-det="$("$ROOT/selftest/mutant.sh" "$D/patch.diff" C02 C03 C04 C05 C06 C10 C16 C17 C19 C20 2>&1)"
+# INTAKE_PROPS restricts the checks that are run (default: all ten)
+PROPS="${INTAKE_PROPS:-C02 C03 C04 C05 C06 C10 C16 C17 C19 C20}"
+det="$("$ROOT/selftest/mutant.sh" "$D/patch.diff" $PROPS 2>&1)"
 echo "$det" | sed "s#^patch.diff#$ID#"
-python3 - "$D" "$ID" "$PROP" "$NEEDS" "$conf" "$det" <<'PY'
+python3 - "$D" "$ID" "$PROP" "$NEEDS" "$conf" "$det" "$PROPS" <<'PY'
 import json, sys, subprocess
-d, sid, prop, needs, conf, det = sys.argv[1:7]
+d, sid, prop, needs, conf, det, props = sys.argv[1:8]
 detected = [l.split()[1] for l in det.splitlines() if ' DETECTED' in l]
 first = next((l.split('DETECTED',1)[1].strip() for l in det.splitlines() if l.split()[1:2]==[prop] and 'DETECTED' in l), "")
 head = subprocess.check_output(["git","-C","/repo","rev-parse","--short","HEAD"], text=True).strip()
@@ -27,7 +29,7 @@ meta = {
   "crate_suite_passes_with_patch": "suite_with_patch=pass" in conf,
   "demo_fails_with_patch": "demo_with_patch=fails-as-claimed" in conf,
  },
- "checks_run": f"selftest/mutant.sh seeded/{sid}/patch.diff C02 C03 C04 C05 C06 C10 C16 C17 C19 C20 (quick tier, release + dev builds, scratch copy of /repo; /repo itself untouched)",
+ "checks_run": f"selftest/mutant.sh seeded/{sid}/patch.diff {props} (quick tier, release + dev builds, scratch copy of /repo; /repo itself untouched)",
  "detected_by": detected,
  "first_violation_of_target_check": first,
  "notes": "",
